@@ -289,8 +289,8 @@ pub fn install_panic_hook() {
         };
         let loc = info.location().map(|l| format!("{}:{}", l.file(), l.line())).unwrap_or_default();
         let was = ilog::is_subject();
-        if !was {
-            eprintln!("[vmon] harness panic: {} at {}", msg, loc);
+        if !was && std::env::var_os("VMON_DEBUG").is_some() {
+            eprintln!("[vmon] panic outside monitored code: {} at {}", msg, loc);
         }
         LAST_PANIC.with(|p| *p.borrow_mut() = Some(format!("{} at {}", msg, loc)));
     }));
